@@ -10,4 +10,8 @@ CONSTANTS
   Sels = {"default", "tuple", "service", "endpoint", "method"}
   SourceEq = FALSE
   Interleave = TRUE
+  MaxAge = 2
+  MaxNow = 0
+  Ticks = {1}
+  Design = "tree"
 CHECK_DEADLOCK FALSE
